@@ -13,7 +13,7 @@ coverage/oracle_selftest.json.
 import os, re, subprocess, sys, json, random
 
 ROOT = os.path.dirname(os.path.dirname(os.path.abspath(__file__)))
-DRIVER = os.path.join(ROOT, "lean", ".lake", "build", "bin", "ubidi-driver")
+DRIVER = os.environ.get("VERIF_DRIVER") or os.path.join(ROOT, "lean", ".lake", "build", "bin", "ubidi-driver")
 HARNESS = os.path.join(ROOT, "harness", "target", "release", "ubidi-harness")
 N = int(sys.argv[1]) if len(sys.argv) > 1 else 60
 STREAMS = ["C01", "C02", "C03", "C04", "C05", "C06", "C07", "C08", "C09", "C10", "C11", "C12", "C13", "C16", "C17", "C18", "C19", "STAGE"]
